@@ -180,7 +180,8 @@ def run(ctx: Ctx, tier: str) -> Result:
             res.fail(Finding("C13.ADD", tu.qname, subs[0], tu.loc(subs[0]),
                              "the listener update is only submitted when `%s`: a registration or unregistration made at the wrong moment "
                              "never reaches the trigger handler" % (norm(extra[0][0]) if extra else fn)))
-    early = [n for n in t.nodes_in(tu, ast.Return) if subs and n.lineno < subs[0].lineno]
+    early = [n for n in t.nodes_in(tu, ast.Return) if subs and n.lineno < subs[0].lineno
+             and not all("_task_handler" in norm(c) for c, pol in paths.conditions(p, n, tu))]
     if early:
         res.fail(Finding("C13.ADD", tu.qname, early[0], tu.loc(early[0]), "the notifier returns before submitting the listener update on some path"))
 
